@@ -229,7 +229,7 @@ func newTaintCtx(c *Ctx) *taintCtx {
 	t := &taintCtx{c: c, callers: map[*ssa.Function][]*ssa.Call{}, fieldMem: map[string][]taintHit{}, fieldBusy: map[string]bool{}, stores: map[string][]*ssa.Store{}}
 	for fn := range c.AllFuncs {
 		scope := inTaintScope(pkgOf(fn))
-		allInstrs(fn, func(in ssa.Instruction) {
+		allInstrsShallow(fn, func(in ssa.Instruction) {
 			if cl, ok := in.(*ssa.Call); ok {
 				if g := cl.Call.StaticCallee(); g != nil {
 					t.callers[g] = append(t.callers[g], cl)
@@ -695,7 +695,7 @@ func checkC04(c *Ctx) Meta {
 			return fmt.Sprintf("%s:%s#%d", FuncName(fn), kind, ord[kind])
 		}
 		inKeystore := strings.HasPrefix(pkgOf(fn), pkgKeystore) || pkgOf(fn) == repoMod+"/poc/wallet"
-		allInstrs(fn, func(in ssa.Instruction) {
+		allInstrsShallow(fn, func(in ssa.Instruction) {
 			// stores into the file structs and into API responses
 			if st, ok := in.(*ssa.Store); ok {
 				if typ, f, _, isF := fieldOfAddr(st.Addr); isF {
@@ -771,7 +771,7 @@ func c04Enc(c *Ctx, t *taintCtx, fns []*ssa.Function) {
 			continue
 		}
 		n := 0
-		allInstrs(fn, func(in ssa.Instruction) {
+		allInstrsShallow(fn, func(in ssa.Instruction) {
 			cl, ok := in.(*ssa.Call)
 			if !ok || callName(cl) != "Encrypt" || callRecv(cl) == nil {
 				return
@@ -966,7 +966,7 @@ func c04Rand(c *Ctx) {
 			continue
 		}
 		ord := 0
-		allInstrs(fn, func(in ssa.Instruction) {
+		allInstrsShallow(fn, func(in ssa.Instruction) {
 			cl, ok := in.(*ssa.Call)
 			if !ok {
 				return
